@@ -6,20 +6,14 @@
 //! produce.  Phase 2 explores it unserialised: every outcome must be one of those.
 #![allow(dead_code, unused_imports, static_mut_refs)]
 
-mod treap_node {
-    include!(concat!(env!("OUT_DIR"), "/treap_node.rs"));
-}
-mod treap {
-    include!(concat!(env!("OUT_DIR"), "/treap.rs"));
-}
+// the treap crate's own lib.rs (modules + re-exports), rewritten by build.rs
+include!(concat!(env!("OUT_DIR"), "/lib.rs"));
 mod notes {
     include!(concat!(env!("OUT_DIR"), "/rewrite_notes.rs"));
 }
 
 use loom::sync::{Arc, Mutex};
 use loom::thread;
-use treap::Treap;
-use treap_node::{TreapItem, TreapItemSized, TreapNode};
 
 include!("../../body.rs");
 
@@ -30,18 +24,45 @@ use std::sync::Mutex as StdMutex;
 static EXECS: AtomicU64 = AtomicU64::new(0);
 static OUTCOMES: StdMutex<BTreeSet<Outcome>> = StdMutex::new(BTreeSet::new());
 
-fn explore(threads: u32, k: usize, serial: bool, bound: Option<usize>, cold: bool) -> (u64, BTreeSet<Outcome>) {
+static FIRST_BAD: StdMutex<Option<String>> = StdMutex::new(None);
+struct StopExploring;
+
+/// Explores `run_once` under loom.  Results that can be judged per execution (a panic inside a thread's
+/// operations, sequence contents, tie shapes, renderings) are judged at once, and the first bad one ends
+/// the exploration; the outcome SET is returned for the serialisability comparison.  `cap_s` bounds the wall
+/// time of one exploration (reported as CAPPED; what was explored until then still counts).
+fn explore(threads: u32, k: usize, serial: bool, bound: Option<usize>, cold: bool, solo_shape: Option<Vec<u32>>, cap_s: u64) -> (u64, BTreeSet<Outcome>, bool) {
     EXECS.store(0, Ordering::SeqCst);
     OUTCOMES.lock().unwrap().clear();
     let mut b = loom::model::Builder::new();
     b.preemption_bound = bound;
     b.max_branches = 100_000;
-    b.check(move || {
-        let o = run_once(threads, k, serial, cold);
-        EXECS.fetch_add(1, Ordering::SeqCst);
-        OUTCOMES.lock().unwrap().insert(o);
-    });
-    (EXECS.load(Ordering::SeqCst), OUTCOMES.lock().unwrap().clone())
+    b.max_duration = Some(std::time::Duration::from_secs(cap_s));
+    let t0 = std::time::Instant::now();
+    let r = std::panic::catch_unwind(std::panic::AssertUnwindSafe(|| {
+        b.check(move || {
+            let o = run_once(threads, k, serial, cold);
+            EXECS.fetch_add(1, Ordering::SeqCst);
+            if let Some(shape) = &solo_shape {
+                if let Err(m) = check_results(&o, k, shape) {
+                    let mut fb = FIRST_BAD.lock().unwrap();
+                    if fb.is_none() {
+                        *fb = Some(format!("{} :: {}", m, outcome_json(&o)));
+                    }
+                    drop(fb);
+                    std::panic::panic_any(StopExploring);
+                }
+            }
+            OUTCOMES.lock().unwrap_or_else(|e| e.into_inner()).insert(o);
+        })
+    }));
+    if let Err(p) = r {
+        if p.downcast_ref::<StopExploring>().is_none() {
+            std::panic::resume_unwind(p);
+        }
+    }
+    let capped = t0.elapsed().as_secs() >= cap_s;
+    (EXECS.load(Ordering::SeqCst), OUTCOMES.lock().unwrap_or_else(|e| e.into_inner()).clone(), capped)
 }
 
 fn main() {
@@ -65,14 +86,22 @@ fn main() {
         println!("SOLO_SHAPES {}", shapes.len());
         shapes.into_iter().next().unwrap_or_default()
     };
-    let (n1, rseq) = explore(threads, k, true, bound, false);
+    let cap_s: u64 = args.get(4).and_then(|s| s.parse().ok()).unwrap_or(60);
+    let mut capped = vec![];
+    let (n1, rseq, c1) = explore(threads, k, true, bound, false, None, cap_s);
     println!("SERIAL executions={} outcomes={}", n1, rseq.len());
-    let (n2, rpar) = explore(threads, k, false, bound, false);
+    let (n2, rpar, c2) = explore(threads, k, false, bound, false, Some(solo_shape.clone()), cap_s);
     println!("PARALLEL executions={} outcomes={}", n2, rpar.len());
     // cold start: nothing has created a node before the threads do
-    let (n3, cseq) = explore(threads, k, true, bound, true);
-    let (n4, cpar) = explore(threads, k, false, bound, true);
+    let (n3, cseq, c3) = explore(threads, k, true, bound, true, None, cap_s);
+    let (n4, cpar, c4) = explore(threads, k, false, bound, true, Some(solo_shape.clone()), cap_s);
     println!("COLD serial_executions={} serial_outcomes={} executions={} outcomes={}", n3, cseq.len(), n4, cpar.len());
+    for (c, what) in [(c1, "warm serialised"), (c2, "warm unserialised"), (c3, "cold serialised"), (c4, "cold unserialised")] {
+        if c {
+            capped.push(what);
+        }
+    }
+    println!("CAPPED {:?} cap_s={}", capped, cap_s);
     // self-check: the generator state must be re-created for every execution, otherwise loom is not
     // looking at it (the main thread draws first, before anything can interfere)
     let mains: BTreeSet<u32> = rseq.iter().chain(rpar.iter()).map(|o| o.main).collect();
@@ -81,13 +110,21 @@ fn main() {
         println!("SAMPLE {}", outcome_json(o));
     }
     let mut bad = 0;
-    for (set, reference, label) in [(&rpar, &rseq, "warm"), (&cpar, &cseq, "cold")] {
+    if let Some(m) = FIRST_BAD.lock().unwrap().clone() {
+        println!("BAD_RESULTS [first bad execution] {}", m);
+        bad += 1;
+    }
+    for (set, reference, label, ref_capped) in [(&rpar, &rseq, "warm", c1), (&cpar, &cseq, "cold", c3)] {
         for o in set.iter() {
             if let Err(m) = check_results(o, k, &solo_shape) {
                 println!("BAD_RESULTS [{label}] {} :: {}", m, outcome_json(o));
                 bad += 1;
                 break;
             }
+        }
+        // an incomplete reference set cannot refute membership
+        if ref_capped {
+            continue;
         }
         for o in set.iter() {
             if !reference.contains(o) {
